@@ -128,6 +128,20 @@ CHECKS.update({
    note=RT_NOTE, technique="TLA+ reference semantics evaluated on alpha-equivalent renderings (model-level invariance) + metamorphic conformance of the real typechecker / interpreter"),
 })
 
+CHECKS.update({
+ "C13": dict(cat="model_checking", design="DESIGN.md 5 C13", engine="GritsRT",
+   text="The mechanism behind race freedom is an ownership discipline: a process body (syntax tree) is rewritten in place by exactly one goroutine; CALL and DUP copy it, "
+        "CUT moves a sub-tree to the child, the monitor gets copies. GritsRT.tla carries this as an ownership layer (tree instance per process) with invariant "
+        "NoSharedTree, checked by TLC on every interleaving of the small programs. The code is bound to it: every hook event of a process lists the identities of the "
+        "Form nodes reachable from its body; GritsRTTrace.tla maps each real node to the model's tree node <<instance, n>> (NoSharedNode: never two names for one real "
+        "node) and Own.tla checks on the traces of all three execution versions that no node is held by two live processes at once (Exclusive). Accesses below the level "
+        "of TLA+ actions (debug counters, monitor and subscriber snapshots, runtime bookkeeping) are observed by a race-detector build of the driver over the same "
+        "programs x modes x monitor / subscriber x cores x yield injection; any report is a violation.",
+   note="Trusted: TLC; the tracer's node identities (a map pins every node, so addresses are never re-used); at most 96 node identities per event (preorder prefix). "
+        "The race detector is a dynamic analysis: it reports only accesses that happen in the runs made. The Go memory model itself is not modelled in TLA+.",
+   technique="TLA+ ownership invariant (NoSharedTree) model-checked with TLC + TLC trace validation of logged Form-node identities (GritsRTTrace NoSharedNode, Own.tla Exclusive); race-detector build as auxiliary oracle below the action level"),
+})
+
 REASON_TODO = "check not built yet (build in progress, see DESIGN.md section 9)"
 
 def main():
@@ -155,6 +169,8 @@ def main():
               "kind_free_text": "TLA+ specification of the command line pipeline; model mode (all configurations) and conform mode (recorded invocations)"},
              {"name": "Host", "path": "spec/Host.tla", "serves_properties": ["C19"],
               "kind_free_text": "TLA+ specification of run isolation inside one host process; model mode (histories) and conform mode (recorded histories)"},
+             {"name": "Own", "path": "spec/Own.tla", "serves_properties": ["C13"],
+              "kind_free_text": "TLA+ specification of the ownership of syntax-tree nodes by live processes; TLC validates the node identities logged by the hooks (all execution versions)"},
              {"name": "Scanner", "path": "spec/Scanner.tla", "serves_properties": ["C11", "C12"],
               "kind_free_text": "TLA+ state machine of the hand-written scanner over character classes; TLC enumerates all short inputs"},
              {"name": "vworker", "path": "harness/cmd/vworker", "serves_properties": ["C08", "C09", "C10", "C11", "C12", "C15", "C16", "C17"],
